@@ -361,6 +361,15 @@ def rule_r2_save_load(prog: Program, col: Collector) -> None:
             f = fname(e.func[1], lp)
             if f:
                 loaded_files[f] = "json"
+    # a checkpoint is READ: the loaded tables are private memory, not a writable window onto the files
+    for e in lft.calls():
+        if is_global(e.func, "numpy.load", "numpy.memmap", "numpy.lib.format.open_memmap"):
+            mm = e.kwargs.get("mmap_mode") or e.kwargs.get("mode")
+            bad = is_global(e.func, "numpy.memmap", "numpy.lib.format.open_memmap") or (mm is not None and mm != ("const", None) and mm not in (("const", "c"),))
+            col.check(not bad, load.where(e.node), load.short, f"load() reads the saved tables into memory ({short(e.func, 30)} without a writable or shared memory map)",
+                      construct="load-memory-mapped",
+                      necessity="with mmap_mode='r+' the loaded arrays ARE the checkpoint files: iterating the loaded minimiser rewrites regret.npy / strategy.npy in place while "
+                                "params.json keeps the old iteration counter - loading the same checkpoint again does not continue like the saved minimiser ('r' makes the first update raise)")
     # every artefact is (re)written by every save(): a checkpoint into a directory that already holds one must replace all of it
     for e in sft.calls():
         is_write = is_global(e.func, "numpy.save", "json.dump") or (e.name == "open" and e.func[0] == "attr" and fname(e.func[1], pp))
